@@ -15,13 +15,19 @@ From Gv Require Import lib.Bytes lib.Gql C17.Util.
 Open Scope N_scope.
 
 (* ------------------------------------------------------------------ printer *)
+(* ast.Document.PrintValue, block strings: a trailing quote would merge with the closing delimiter and a trailing
+   backslash would escape it, so a line terminator (not part of the content) is written in between
+   (fix rt-block-string-edge / default-block-string-reprint; before it nothing was written: [print_value_v0]) *)
+Definition block_sep (raw : bytes) : bytes :=
+  let c := last raw 0 in if (c =? 34) || (c =? 92) then [10] else [].
+
 Fixpoint print_value (v : value) : bytes :=
   match v with
   | VVar n => 36 :: n
   | VInt raw => raw
   | VFloat raw => raw
   | VStr raw false => 34 :: raw ++ [34]
-  | VStr raw true => 34 :: 34 :: 34 :: raw ++ [34; 34; 34]
+  | VStr raw true => 34 :: 34 :: 34 :: raw ++ block_sep raw ++ [34; 34; 34]
   | VBool true => #"true"
   | VBool false => #"false"
   | VNull => #"null"
@@ -77,6 +83,29 @@ Definition block_content (acc : bytes) (lead wc : nat) : bytes :=
   let body := skipn lead all in
   firstn (length body - wc) body.
 
+(* lexer.readBlockString, one byte [c] inside a block string.  Quotes that did not close the string are content:
+   like any other character they end the leading white space and restart the trailing white space -- this is
+   settled when the next byte that is not a quote arrives ([block_fire]; fix block-quote-next-to-whitespace). *)
+Definition block_fire (qc : nat) (c : byte) : bool := match qc with O => false | _ => negb (c =? 34) end.
+Definition settled_wc (fire : bool) (wc : nat) : nat := if fire then O else wc.
+Definition settled_lead (fire : bool) (wc : nat) (reached : bool) (lead : nat) : nat :=
+  if fire && negb reached then wc else lead.
+Inductive bstep := BNext (acc : bytes) (escaped : bool) (qc wc : nat) (reached : bool) (lead : nat) | BClose (content : bytes).
+Definition block_step (acc : bytes) (esc : bool) (qc wc0 : nat) (reached0 : bool) (lead0 : nat) (c : byte) : bstep :=
+  let fire := block_fire qc c in
+  let wc := settled_wc fire wc0 in
+  let lead := settled_lead fire wc0 reached0 lead0 in
+  let reached := fire || reached0 in
+  if (c =? 32) || (c =? 9) || (c =? 13) || (c =? 10) then BNext (c :: acc) false 0 (S wc) reached lead
+  else if c =? 34 then
+    (if esc then BNext (c :: acc) false qc wc reached lead
+     else match qc with
+          | S (S O) => BClose (block_content (tl (tl acc)) lead wc)
+          | _ => BNext (c :: acc) false (S qc) wc reached lead
+          end)
+  else if c =? 92 then BNext (c :: acc) (negb esc) 0 0 true (if reached then lead else wc)
+  else BNext (c :: acc) false 0 0 true (if reached then lead else wc).
+
 (* what to do with byte [c] when no token is in progress; [rec] is the lexer itself *)
 Definition lex_dispatch (rec : lstate -> bytes -> list tok) (sigil : bool) (c : byte) (s : bytes) : list tok :=
   if is_ws c then (if sigil then TGap :: rec LStart s else rec LStart s)
@@ -107,7 +136,9 @@ Definition lex_flush (st : lstate) : list tok :=
   | LFloat1 acc _ | LFloat2 acc | LFloat3 acc => [TFloat (rev acc)]
   | LQ1 | LQ2 => [TStr [] false]
   | LStr acc _ => [TStr (rev acc) false]
-  | LBlock acc _ _ wc _ lead => [TStr (block_content acc lead wc) true]
+  | LBlock acc _ qc wc reached lead =>   (* end of input is "not a quote" as well *)
+    let fire := match qc with O => false | _ => true end in
+    [TStr (block_content acc (settled_lead fire wc reached lead) (settled_wc fire wc)) true]
   end.
 
 Fixpoint lex_go (st : lstate) (s : bytes) {struct s} : list tok :=
@@ -144,16 +175,10 @@ Fixpoint lex_go (st : lstate) (s : bytes) {struct s} : list tok :=
       else TStr [] false :: lex_dispatch lex_go false c s'
     | LStr acc esc => str_step lex_go acc esc c s'
     | LBlock acc esc qc wc reached lead =>
-      if (c =? 32) || (c =? 9) || (c =? 13) || (c =? 10) then
-        lex_go (LBlock (c :: acc) false 0 (S wc) reached lead) s'
-      else if c =? 34 then
-        (if esc then lex_go (LBlock (c :: acc) false qc wc reached lead) s'
-         else match qc with
-              | S (S O) => TStr (block_content (tl (tl acc)) lead wc) true :: lex_go LStart s'
-              | _ => lex_go (LBlock (c :: acc) false (S qc) wc reached lead) s'
-              end)
-      else if c =? 92 then lex_go (LBlock (c :: acc) (negb esc) 0 0 reached lead) s'
-      else lex_go (LBlock (c :: acc) false 0 0 true (if reached then lead else wc)) s'
+      match block_step acc esc qc wc reached lead c with
+      | BNext acc' esc' qc' wc' reached' lead' => lex_go (LBlock acc' esc' qc' wc' reached' lead') s'
+      | BClose content => TStr content true :: lex_go LStart s'
+      end
     end
   end.
 
